@@ -646,12 +646,13 @@ def released_from_xml(xml):
 NID = None
 
 
-def do_authn(server, eid, ident):
+def do_authn(server, eid, ident, release_policy=None):
     global NID
     if NID is None:
         NID = saml.NameID(text="subject-1", format=saml.NAMEID_FORMAT_PERSISTENT)
+    kw = {} if release_policy is None else {"release_policy": release_policy}
     resp = server.create_authn_response(copy.deepcopy(ident), in_response_to="req-1", destination=eid + "/acs", sp_entity_id=eid,
-                                        name_id=NID, authn={"class_ref": PASSWORD, "authn_auth": "https://idp.example.org/idp"})
+                                        name_id=NID, authn={"class_ref": PASSWORD, "authn_auth": "https://idp.example.org/idp"}, **kw)
     return released_from_xml(str(resp))
 
 
@@ -806,6 +807,76 @@ def ec_world(rng):
     return sps
 
 
+def _ra(fr, required, shape="uri", values=None, friendly=None):
+    a = [x for x in ATTRS if x[0] == fr][0]
+    d = {"__class__": "urn:oasis:names:tc:SAML:2.0:metadata&RequestedAttribute"}
+    if shape == "uri":
+        d.update(name=a[1], name_format=URI, friendly_name=friendly or fr)
+    elif shape == "basic":
+        d.update(name=a[2], name_format=BASIC, friendly_name=friendly or fr)
+    elif shape == "friendly":
+        d.update(name=a[1], friendly_name=friendly or fr)
+    else:
+        d.update(name=friendly or fr)
+    if values is not None:
+        d["attribute_value"] = [{"text": v} for v in values]
+    if required is not None:
+        d["is_required"] = "true" if required else "false"
+    return d
+
+
+def missing_worlds(rng, modules):
+    """fixed worlds that walk the path 'a required attribute or value cannot be supplied' under every policy shape:
+    SPs requiring an attribute / a value / an unsatisfiable value (with and without wishes), identities that lack it,
+    have it under another case, have it with a near-miss value, always next to attributes the policy must withhold"""
+    sps = [
+        {"eid": "https://m0.example.org/sp", "ecs": None, "acs": [[_ra("sn", True), _ra("givenName", False)]]},
+        {"eid": "https://m1.example.org/sp", "ecs": None,
+         "acs": [[_ra("mail", True, values=["a@example.org"]), _ra("givenName", None), _ra("displayName", False, values=["Anna"])]]},
+        {"eid": "https://m2.example.org/sp", "ecs": None, "acs": [[_ra("sn", True, "basic"), _ra("mail", True, "friendly", values=["a@example.org", "x"])]]},
+        {"eid": "https://m3.example.org/sp", "ecs": [COCO],
+         "acs": [[_ra("eduPersonScopedAffiliation", True, "friendly", values=["never-held"], friendly="EDUPERSONSCOPEDAFFILIATION"),
+                  _ra("cn", False, "friendly")]]},
+        {"eid": "https://m4.example.org/sp", "ecs": [PVP2], "acs": [[_ra("sn", True)], [_ra("mail", False), _ra("PVP-MAIL", False, "friendly")]]},
+        {"eid": "https://m5.example.org/sp", "ecs": None, "acs": [[_ra("sn", True, "name-only", friendly="SN"), _ra("secret", False, "name-only")]]},
+        {"eid": "https://m6.example.org/sp", "ecs": None, "acs": []},
+    ]
+    m0, m1, m2 = sps[0]["eid"], sps[1]["eid"], sps[2]["eid"]
+    lt = {"minutes": 15}
+    pols = [
+        {"default": {"lifetime": lt, "attribute_restrictions": {"givenName": None, "sn": None, "Mail": [".*@example\\.org$"], "displayname": ["^A"]}}},
+        {"default": {"lifetime": lt}},
+        {"default": {"lifetime": lt, "attribute_restrictions": None, "fail_on_missing_requested": False}},
+        {"default": {"lifetime": lt, "entity_categories": ["at_egov_pvp2"], "attribute_restrictions": {"cn": None, "pvp-mail": None, "givenname": None}}},
+        {"default": {"lifetime": lt, "entity_categories": ["edugain"]}},
+        {"default": {"lifetime": lt, "attribute_restrictions": {"secret": None}},
+         m0: {"lifetime": lt, "attribute_restrictions": {"givenName": ["^A", "nna$"]}},
+         m1: {"lifetime": lt, "fail_on_missing_requested": False},
+         m2: {"lifetime": lt, "attribute_restrictions": None, "fail_on_missing_requested": True}},
+        {m0: {"lifetime": lt, "attribute_restrictions": {"sn": None}}, m1: {"lifetime": lt, "entity_categories": []}},
+        None,
+    ]
+    idents = [
+        {"givenName": ["Anna", "anna"], "secret": ["s3cret"], "displayName": ["Anna", "Bob"], "Mail": ["b@other.org"], "cn": ["Anna A"]},
+        {"GIVENNAME": ["Anna"], "SN": ["A"], "mail": ["A@EXAMPLE.ORG", "a@example.orgx"], "Secret": ["s3cret", "Ünï"], "PVP-MAIL": ["a@example.org"]},
+        {"sn": ["A"], "givenName": ["Bob"], "mail": ["a@example.org", "b@other.org"], "secret": ["s3cret"], "displayName": ["Anna"],
+         "eduPersonScopedAffiliation": ["staff@example.org"]},
+        {"secret": ["s3cret"], "名前": ["名前"], "eduPersonScopedAffiliation": ["never-heldx", "Never-Held"], "cn": ["x"], "urn:oid:2.5.4.42": ["Anna"]},
+        {"sn": [], "mail": ["x"], "givenName": [], "secret": ["s3cret"]},
+    ]
+    out = []
+    for pol in pols:
+        w = World(rng, 0, modules, fixed=(sps, pol, pol))
+        script = []
+        for e in [x["eid"] for x in sps]:
+            for j, ident in enumerate(idents):
+                script.append(("authn", e, copy.deepcopy(ident)))
+                script.append((("setup", "attr", "restrict", "setup", "authn-rp")[j % 5], e, copy.deepcopy(ident)))
+        w.script = script
+        out.append(w)
+    return out
+
+
 def unit_worlds(ctx):
     rng = ctx.rng
     modules = translate_c07.ec_module_names()
@@ -837,6 +908,7 @@ def unit_worlds(ctx):
     rx_ident = {n: list(VALUE_POOL) for n in rx_names}
     rx_world.script = [(k, e["eid"], copy.deepcopy(rx_ident)) for e in rx_sps for k in ("authn", "attr", "restrict")]
     worlds.append(rx_world)
+    worlds += missing_worlds(rng, modules)
     for i in range(nworld):
         worlds.append(World(rng, len(worlds), modules))
     unit_entity_categories(ctx, worlds[-1])
@@ -867,15 +939,16 @@ def unit_worlds(ctx):
                     ident = copy.deepcopy(seq[-1][2])
                 else:
                     tune_identity(rng, ident, w.decls(e), w.acs)
-                kind = rng.choice(["authn"] * 6 + ["attr", "attr", "filter", "filter", "restrict", "restrict", "setup"])
+                kind = rng.choice(["authn"] * 5 + ["authn-rp", "attr", "attr", "filter", "filter", "restrict", "restrict", "setup"])
                 seq.append((kind, e, ident))
                 last = e
             seq.append(("restrict", "https://unknown.example.org/sp", gen_identity(rng, w.focus)))
         for kind, eid, ident in seq:
             view = w.view(eid)
             shape = pol_shape(w.pol, eid)
-            if kind == "authn":
-                got = call(do_authn, w.server, eid, ident)
+            if kind in ("authn", "authn-rp"):
+                # authn-rp: the per-request release_policy argument (a second long-lived Policy object of the same configuration)
+                got = call(do_authn, w.server, eid, ident, w.policy if kind == "authn-rp" and w.pol else None)
                 impl, rel = outcome_val(got)
                 per["e2e_authn"].append(dict(id=len(per["e2e_authn"]), coq=w.pcase(eid, ident), impl=impl,
                                              show={"world": wi, "sp": eid, "identity": ident, "policy": w.pol, "sp_view": view}))
@@ -885,6 +958,8 @@ def unit_worlds(ctx):
                 if missing_required(w.acs, w.pol, view, eid, ident):
                     cls += ":required-missing"
                 ctx.count("e2e_authn:" + cls)
+                if call(w.policy.restrict, copy.deepcopy(ident), eid, w.server.metadata) == Exn("MissingValue"):
+                    ctx.count("e2e_authn:best-effort-path-taken(restrict raises MissingValue):" + (impl.name if isinstance(impl, Exn) else impl[0]))
                 if isinstance(impl, Exn) or rel != {k: sorted(set(v)) for k, v in ident.items()} or "missing" in cls:
                     ctx.nontriv(("authn", w.pol, view, ident))
                 if len(ctx.samples) < 6 and rel is not None and rel != ident and len(ident) > 2:
@@ -902,7 +977,7 @@ def unit_worlds(ctx):
                 if isinstance(impl, Exn) or rel != {k: sorted(set(v)) for k, v in ident.items()}:
                     ctx.nontriv(("attr", w.aa_pol, view, ident))
             elif kind == "setup":
-                be = rng.random() < 0.35
+                be = rng.random() < 0.5
 
                 def setup():
                     r = w.server.setup_assertion({"class_ref": PASSWORD, "authn_auth": "x"}, eid, "req-1", eid + "/acs",
